@@ -39,7 +39,8 @@ def documents(name, tier):
         req = V.attr_xml(t) if kind == 'complex' else ''
         sv = V.sample_value(tt)
         if roots & docs.NUMERIC_ROOTS:
-            for sp in (sv, sv + '.0' if '.' not in sv else sv, '+' + sv if not sv.startswith(('-', '+')) else sv, '0' + sv, ' ' + sv + ' '):
+            big = ['9007199254740993'] if not (roots & {'xs:decimal'}) else ['1234567.125']
+            for sp in [sv, sv + '.0' if '.' not in sv else sv, '+' + sv if not sv.startswith(('-', '+')) else sv, '0' + sv, ' ' + sv + ' '] + big:
                 yield 'num:' + sp, '<%s%s>%s</%s>' % (name, req, sp, name)
         else:
             f = R.st_facets(tt) if tt in R.STYPES else None
@@ -86,7 +87,7 @@ def pretty(text):
 
 
 MUTATIONS = ['unknown-attribute', 'unknown-child', 'text-in-element-only', 'tail-text', 'duplicate-last-child',
-             'swap-children', 'invalid-value', 'foreign-attribute']
+             'swap-children', 'invalid-value', 'foreign-attribute', 'fractional-number', 'fractional-attribute']
 
 
 def mutate(text, op):
@@ -121,6 +122,15 @@ def mutate(text, op):
         if len(e) or not (e.text or '').strip():
             return None
         e.text = 'no-such-value-xyz 1'
+    elif op == 'fractional-number':
+        if len(e) or not (e.text or '').strip():
+            return None
+        e.text = '2.5'
+    elif op == 'fractional-attribute':
+        if not e.attrib:
+            return None
+        k = sorted(e.attrib)[0]
+        e.set(k, '4.75')
     elif op == 'foreign-attribute':
         if 'slash-type' in e.attrib:
             return None
